@@ -64,7 +64,9 @@ func genSize(t *rapid.T, c *Case, label string, allowOversize bool) (series, tot
 
 // genFault draws one fault action.
 func genFault(t *rapid.T, l string, sh int) Action {
-	switch pick(t, l+"-fault", 4, 3, 3, 2, 2, 2, 3, 2, 3) {
+	switch pick(t, l+"-fault", 4, 3, 3, 2, 2, 2, 3, 2, 3, 3) {
+	case 9:
+		return Action{Kind: rapid.SampledFrom([]string{"postFail", "postFailAll"}).Draw(t, l+"-pf"), Shard: sh, K: rapid.SampledFrom([]int{2, 3, 4, 6}).Draw(t, l+"-k")}
 	case 8:
 		return Action{Kind: "jobBroken", Shard: sh, Job: rapid.SampledFrom([]string{"j0", "j1"}).Draw(t, l+"-job"), K: rapid.IntRange(2, 6).Draw(t, l+"-k")}
 	case 0:
@@ -209,7 +211,9 @@ func GenCase(t *rapid.T, withFaults bool) *Case {
 			if withFaults && faults < 4 && rapid.IntRange(0, 2).Draw(t, l+"-faultOn") == 0 {
 				faults++
 				sh := rapid.IntRange(0, 4).Draw(t, l+"-shard")
-				switch pick(t, l+"-fault", 5, 3, 3, 2, 2, 2, 2, 2, 3) {
+				switch pick(t, l+"-fault", 5, 3, 3, 2, 2, 2, 2, 2, 3, 3) {
+				case 9:
+					c.Prefix = append(c.Prefix, Action{Kind: rapid.SampledFrom([]string{"postFail", "postFailAll"}).Draw(t, l+"-pf"), Shard: sh, K: rapid.SampledFrom([]int{2, 3, 4, 6}).Draw(t, l+"-k")})
 				case 8:
 					c.Prefix = append(c.Prefix, Action{Kind: "jobBroken", Shard: sh, Job: rapid.SampledFrom([]string{"j0", "j1"}).Draw(t, l+"-job"), K: rapid.IntRange(2, 6).Draw(t, l+"-k")})
 				case 0:
@@ -288,7 +292,9 @@ func GenCase(t *rapid.T, withFaults bool) *Case {
 		default:
 			faults++
 			sh := rapid.IntRange(0, 4).Draw(t, l+"-shard")
-			switch pick(t, l+"-fault", 4, 3, 3, 2, 2, 2, 2, 2, 3) {
+			switch pick(t, l+"-fault", 4, 3, 3, 2, 2, 2, 2, 2, 3, 3) {
+			case 9:
+				c.Prefix = append(c.Prefix, Action{Kind: rapid.SampledFrom([]string{"postFail", "postFailAll"}).Draw(t, l+"-pf"), Shard: sh, K: rapid.SampledFrom([]int{2, 3, 4, 6}).Draw(t, l+"-k")})
 			case 8:
 				c.Prefix = append(c.Prefix, Action{Kind: "jobBroken", Shard: sh, Job: rapid.SampledFrom([]string{"j0", "j1"}).Draw(t, l+"-job"), K: rapid.IntRange(2, 6).Draw(t, l+"-k")})
 			case 0:
